@@ -332,6 +332,37 @@ seed("C10", "cleanup-after-first-connection", "clean-up runs after the first con
      (MAIN, '\tif err := deleteTempFiles(conf.OutputDir); err != nil {\n\t\treturn err\n\t}\n', ""),
      (MAIN, "\t\terr = handleConn(conn, conf)\n", "\t\terr = handleConn(conn, conf)\n\t\tdeleteTempFiles(conf.OutputDir)\n"))
 
+CFG = "cmd/thermal-recorder/config.go"
+RC = "recorder/recorderconfig.go"
+# ---- C11
+seed("C11", "brand-model-swapped", "brand and model arguments swapped at the motion recorder site", ["C11.H1"],
+     (MAIN, "cptvRecorder := NewCPTVFileRecorder(conf, headerInfo, headerInfo.Brand(), headerInfo.Model(),", "cptvRecorder := NewCPTVFileRecorder(conf, headerInfo, headerInfo.Model(), headerInfo.Brand(),"))
+seed("C11", "resx-from-resy", "ResX filled from the ResY key", ["C11.H2"],
+     (HI, "resX:      toInt(h[XResolution]),", "resX:      toInt(h[YResolution]),"))
+seed("C11", "minsecs-from-maxsecs", "min-secs setting taken from max-secs", ["C11.H3"],
+     (RC, "MinSecs:          thermalRecorderConfig.MinSecs,", "MinSecs:          thermalRecorderConfig.MaxSecs,"))
+seed("C11", "recorder-before-motion-config", "file recorder built before the camera-model motion config is loaded", ["C11.H4"],
+     (MAIN, "\tconf.LoadMotionConfig(headerInfo.Model())\n\tlogConfig(conf)\n", "\tlogConfig(conf)\n"),
+     (MAIN, "\tdefer cptvRecorder.Stop()\n", "\tdefer cptvRecorder.Stop()\n\tconf.LoadMotionConfig(headerInfo.Model())\n"))
+seed("C11", "header-fps-constant", "header fps hard-coded", ["C11.H1"],
+     (CF, "FPS:          camera.FPS(),", "FPS:          9,"))
+seed("C11", "threshold-not-recorded", "triggered threshold replaced by the configured one", ["C11.H1"],
+     (CF, 'motionYAML := fmt.Sprintf("%striggeredthresh: %d\\n", fw.motionYAML, tempThreshold)', 'motionYAML := fmt.Sprintf("%striggeredthresh: %d\\n", fw.motionYAML, 0)'))
+seed("C11", "background-dropped", "background frame not stored in the header", ["C11.H1"],
+     (CF, "\tfw.header.BackgroundFrame = background\n", ""))
+seed("C11", "boson-parsed-as-lepton", "boson frames parsed with the Lepton parser", ["C11.H5"],
+     (MAIN, '\tcase "boson":\n\t\treturn convertRawBosonFrame', '\tcase "boson":\n\t\treturn lepton3.ParseRawFrame'))
+seed("C11", "device-name-from-id", "device name missing from the header", ["C11.H1"],
+     (CF, "\t\tDeviceName:   config.DeviceName,\n", ""))
+seed("C11", "wrong-section", "recorder settings read from the lepton section", ["C11.H3"],
+     (RC, "conf.Unmarshal(config.ThermalRecorderKey, &thermalRecorderConfig)", "conf.Unmarshal(config.LeptonKey, &thermalRecorderConfig)"))
+seed("C11", "output-dir-from-frame-output", "output dir wired from the wrong setting", ["C11.H3"],
+     (CFG, "OutputDir:    thermalRecorderConfig.OutputDir,", "OutputDir:    leptonConfig.FrameOutput,"))
+seed("C11", "motion-defaults-ignore-model", "motion defaults loaded for a fixed model", ["C11.H4", "C11.H3"],
+     (CFG, "motion.NewConfig(configRW, cameraModel)", 'motion.NewConfig(configRW, "lepton3")'))
+seed("C11", "serial-getter-returns-fps", "CameraSerial getter returns another field", ["C11.H2"],
+     (HI, "func (h *HeaderInfo) CameraSerial() int {\n\treturn h.serial", "func (h *HeaderInfo) CameraSerial() int {\n\treturn h.fps"))
+
 here = os.path.dirname(os.path.abspath(__file__))
 for pid, name, d in S:
     os.makedirs(os.path.join(here, pid), exist_ok=True)
